@@ -575,3 +575,19 @@ VK(fast_path) {
   if (!ok) return 0;
   return vk_save(u, out, cap, 1);
 }
+
+// ---------------------------------------------------------------- shorten_path twins (C04, C01)
+// p0 = scheme type; p1 = 0: std::string overload (ada::url), 1: std::string_view overload (ada::url_aggregator)
+// returns changed | newlen<<8 ; out = shortened path
+VK(shorten_path) {
+  UNUSED;
+  ada::scheme::type t = ada::scheme::type(p0);
+  if (p1 == 0) {
+    std::string s(SV);
+    bool r = ada::helpers::shorten_path(s, t);
+    return uint64_t(r) | (vk_put(out, cap, s) << 8);
+  }
+  std::string_view v = SV;
+  bool r = ada::helpers::shorten_path(v, t);
+  return uint64_t(r) | (vk_put(out, cap, v) << 8);
+}
